@@ -1495,6 +1495,8 @@ def adapt_class_type(
         if init_args:
             value["init_args"] = init_args
     if dict_kwargs:
+        if not serialize and not accepts_var_keyword(val_class):
+            raise_unexpected_value(f"{value['class_path']} does not accept the keys given in dict_kwargs: {dict_kwargs}")
         if prev_val and prev_val.get("class_path") == value["class_path"] and prev_val.get("dict_kwargs"):
             dict_kwargs = {**prev_val.get("dict_kwargs"), **dict_kwargs}
         value["dict_kwargs"] = {}
@@ -1504,6 +1506,15 @@ def adapt_class_type(
                     val = load_value(val, simple_types=True)
             value["dict_kwargs"][key] = val
     return value
+
+
+def accepts_var_keyword(component) -> bool:
+    """Whether a class or callable has a **kwargs parameter, True if its signature is unknown."""
+    try:
+        params = inspect.signature(component).parameters.values()
+    except (TypeError, ValueError):
+        return True
+    return any(p.kind == p.VAR_KEYWORD for p in params)
 
 
 def adapt_classes_any(val, serialize, instantiate_classes, sub_add_kwargs):
